@@ -10,7 +10,10 @@ RULE = RULE + (
     "with generated packet-number gaps (up to several hundred separate ranges, far more than fit into one ACK frame), never acknowledging the endpoint's own "
     "packets so that nothing is pruned, in generated bursts between which the endpoint's ACK timer is allowed to fire; every ACK frame the endpoint emits "
     "(decrypted wire) must list only packet numbers that were sent to it, and after every burst the highest number delivered so far must be covered by an "
-    "ACK frame sent within max_ack_delay (25 ms) of its arrival."
+    "ACK frame sent within max_ack_delay (25 ms) of its arrival. Task arrival-timing: one evaluation = runs of ack-eliciting (PING, STREAM) and "
+    "padding-only packets arriving with generated gaps from 0.1 ms to 40 ms (runs of up to 120 packets, so sub-millisecond streams last longer than the "
+    "advertised delay), handle_timer called exactly at the times get_timer names: every ack-eliciting packet that carried the highest number so far is "
+    "covered by an ACK frame sent within the advertised max_ack_delay of its arrival."
 )
 
 
@@ -80,12 +83,100 @@ def many_ranges_task(ctx, examples, shard):
     run_hypothesis(ctx, body, strat, examples, shard=shard)
 
 
+def arrival_timing_case(ctx, case):
+    """Ack-eliciting 1-RTT packets from a key-holding peer arrive with generated gaps (0.1 ms .. 40 ms, in runs); the caller does what the Sans-IO
+    contract asks: datagrams_to_send after every arrival, handle_timer at exactly the time get_timer names.  Every ack-eliciting packet that carried the
+    highest number so far must be covered by an ACK frame sent no later than max_ack_delay (advertised by the endpoint) after its arrival."""
+    from vlib import endpoints as E, refquic as R
+    from vlib.takeover import Takeover, sut_transport_parameters
+
+    with E.pinned(("c12-arrivals", case["role"])):
+        tk = Takeover(case["role"])
+        tp = sut_transport_parameters(tk) or {}
+        max_ack_delay = tp.get("max_ack_delay", 25) / 1000.0
+        sut = tk.sut
+        arrivals = {}  # pn -> arrival time, for ack-eliciting packets that were the highest so far
+        first_ack = {}  # pn -> time of the first ACK frame covering it
+        sent = set()
+        top = tk.pn - 1
+
+        def look():
+            for v in tk.collect():
+                for f in v.frames or []:
+                    if f["name"] == "ack" and v.space == "app":
+                        for lo, hi in f["acked"]:
+                            for p in sent:
+                                if lo <= p <= hi:
+                                    first_ack.setdefault(p, tk.now)
+
+        def run_until(t_end):
+            # fire every timer the endpoint asks for up to t_end, at the time it names
+            for _ in range(400):
+                t = sut.get_timer()
+                if t is None or t > t_end:
+                    break
+                tk.now = max(tk.now, t)
+                sut.handle_timer(now=tk.now)
+                tk.drain_events()
+                look()
+            tk.now = max(tk.now, t_end)
+
+        pn = tk.pn + 1
+        for gap, count, kind in case["runs"]:
+            for _ in range(count):
+                run_until(tk.now + gap)
+                if sut._close_event is not None:
+                    break
+                frames = [{"name": "ping"}] if kind == "ping" else [{"name": "stream", "stream_id": 0 if case["role"] == "server" else 1, "offset": 0, "data": b"", "fin": False}] if kind == "stream" else [{"name": "padding"}]
+                pkt, _ = tk.build_packet(R.encode_frames(frames), pn=pn, pn_len=2)
+                sut.receive_datagram(pkt, tk.peer_addr, now=tk.now)
+                sent.add(pn)
+                if kind != "padding" and pn > top:
+                    arrivals[pn] = tk.now
+                top = max(top, pn)
+                pn += 1
+                tk.drain_events()
+                look()
+        run_until(tk.now + 0.2)
+        late = []
+        for p, ta in sorted(arrivals.items()):
+            ts = first_ack.get(p)
+            if ts is None or ts > ta + max_ack_delay + 1e-6:
+                late.append((p, ta, ts))
+        if late and sut._close_event is None:
+            p, ta, ts = late[0]
+            ctx.violation(
+                "ack-later-than-advertised-max-ack-delay",
+                "%s: ack-eliciting packet %d (highest so far) arrived at t=%.4f; %s; the endpoint advertised max_ack_delay=%.0f ms; %d of %d such packets were acknowledged late; timers were fired exactly when asked" % (case["role"], p, ta, "first ACK covering it sent at t=%.4f (%.1f ms later)" % (ts, (ts - ta) * 1000) if ts is not None else "never acknowledged", max_ack_delay * 1000, len(late), len(arrivals)),
+                case,
+            )
+        span = max((c * g for g, c, k in case["runs"] if g < 0.001), default=0)
+        ctx.case(("arrivals", repr(case)), nontrivial=len(arrivals) >= 20, classes=["arrivals:" + case["role"], "arrivals:sub-ms-run-longer-than-max-ack-delay" if span > max_ack_delay else "arrivals:short-runs"])
+
+
+def arrival_timing_task(ctx, examples, shard):
+    from hypothesis import strategies as st
+    from vlib.harness import run_hypothesis
+
+    run = st.tuples(st.sampled_from([0.0001, 0.0004, 0.0009, 0.00099, 0.001, 0.0011, 0.003, 0.012, 0.04]), st.sampled_from([1, 3, 10, 40, 120]), st.sampled_from(["ping", "ping", "stream", "padding"]))
+    strat = st.fixed_dictionaries({"kind": st.just("arrivals"), "role": st.sampled_from(["server", "client"]), "runs": st.lists(run, min_size=1, max_size=6)})
+
+    def body(ctx, case):
+        arrival_timing_case(ctx, case)
+        if ctx.want_sample():
+            ctx.sample(case)
+
+    run_hypothesis(ctx, body, strat, examples, shard=shard)
+
+
 def plan(tier, seed):
     from vlib import simchecks
 
     t = simchecks.plan_for("C12", tier, seed)
     for s in range(2):
         t.append(("many-ranges-%d" % s, {"fn": "ranges", "examples": 40 if tier == "quick" else 3000, "shard": s}))
+    for s in range(2):
+        t.append(("arrival-timing-%d" % s, {"fn": "arrivals", "examples": 60 if tier == "quick" else 4000, "shard": s}))
     return t
 
 
@@ -94,6 +185,8 @@ def run_task(ctx, name, fn, **kw):
 
     if fn == "ranges":
         return many_ranges_task(ctx, kw["examples"], kw["shard"])
+    if fn == "arrivals":
+        return arrival_timing_task(ctx, kw["examples"], kw["shard"])
     simchecks.run_task(ctx, "C12", name, fn, **kw)
 
 
@@ -102,4 +195,6 @@ def replay(ctx, case):
 
     if case.get("kind") == "ranges":
         return many_ranges_case(ctx, dict(case, bursts=[[tuple(r) for r in b] for b in case["bursts"]]))
+    if case.get("kind") == "arrivals":
+        return arrival_timing_case(ctx, dict(case, runs=[tuple(r) for r in case["runs"]]))
     simchecks.replay(ctx, case, "C12")
